@@ -420,3 +420,44 @@ def atoms(x, out=None):
 
 def contains(x, needle):
     return needle in atoms(x)
+
+
+def to_python(x, varmap):
+    """Render an integer normal form as a Python expression over the names in varmap {S atom: name}.
+    Only total integer operations are rendered; anything else raises ValueError."""
+    if not isinstance(x, S):
+        if isinstance(x, bool):
+            return "1" if x else "0"
+        if isinstance(x, int):
+            return f"({x})"
+        raise ValueError(f"not an integer: {x!r}")
+    if x in varmap:
+        return varmap[x]
+    if x[0] == "lin":
+        parts = [f"({c})*{to_python(t, varmap)}" for t, c in x[1]]
+        parts.append(f"({x[2]})")
+        return "(" + "+".join(parts) + ")"
+    if x[0] == "op":
+        n, a = x[1], x[2:]
+        binop = {"mod": "%", "floordiv": "//", "shl": "<<", "shr": ">>", "and": "&", "or": "|", "xor": "^", "mul": "*", "pow": "**"}
+        if n in binop and len(a) == 2:
+            return f"({to_python(a[0], varmap)} {binop[n]} {to_python(a[1], varmap)})"
+        if n == "inv":
+            return f"(~{to_python(a[0], varmap)})"
+        if n == "bit":
+            return f"(({to_python(a[0], varmap)} >> {to_python(a[1], varmap)}) & 1)"
+        if n == "ifexp":
+            return f"({to_python(a[1], varmap)} if {to_python(a[0], varmap)} else {to_python(a[2], varmap)})"
+        if n == "cmp":
+            if a[0] not in ("<", "<=", ">", ">=", "==", "!="):
+                raise ValueError(a[0])
+            return f"({to_python(a[1], varmap)} {a[0]} {to_python(a[2], varmap)})"
+        if n in ("min", "max"):
+            return f"{n}(" + ",".join(to_python(z, varmap) for z in a) + ")"
+    raise ValueError(f"cannot render {x!r}")
+
+
+def compile_int(x, varmap):
+    src = to_python(x, varmap)
+    names = sorted(varmap.values())
+    return eval("lambda " + ",".join(names) + ": " + src, {"__builtins__": {"min": min, "max": max}})
